@@ -197,6 +197,46 @@ def run(ctx: Ctx, tier: str) -> Result:
         else:
             res.fail(Finding("C09.C", submit.qname, regs[0] if regs else "<self._pending[id] = future>", submit.loc(regs[0]) if regs else submit.loc(),
                              "the future of an accepted task is not (unconditionally) recorded in the pending map: flush does not wait for it"))
+    # the key an accepted task is tracked under is new for every submission (two tasks under one key: flush misses one)
+    for ps in pool_submits:
+        regs_ = [n for n in t.nodes_in(submit, ast.Assign) if isinstance(n.targets[0], ast.Subscript) and "_pending" in norm(n.targets[0].value)]
+        for n in regs_:
+            key = n.targets[0].slice
+            src = None
+            if isinstance(key, ast.Name):
+                bs_ = [b for k_, b in t.local_bindings(submit, key.id) if k_ == "assign"]
+                src = bs_[0][1] if len(bs_) == 1 else None
+            okk = False
+            why = "the tracking key `%s` is not obtained from a per-submission counter" % norm(key)
+            if isinstance(src, ast.Call):
+                for g_ in t.resolve_call(src, submit).repo:
+                    incs = [a for a in t.nodes_in(g_, ast.AugAssign) if isinstance(a.op, ast.Add) and isinstance(a.value, ast.Constant)
+                            and isinstance(a.value.value, int) and a.value.value > 0 and isinstance(a.target, ast.Attribute)]
+                    rets_ = [r for r in t.nodes_in(g_, ast.Return)]
+                    fld = norm(incs[0].target) if len(incs) == 1 else None
+                    def from_field(v):
+                        if v is None:
+                            return False
+                        if norm(v) == fld:
+                            return True
+                        if isinstance(v, ast.Name):
+                            b2 = [b for k_, b in t.local_bindings(g_, v.id) if k_ == "assign"]
+                            return len(b2) == 1 and b2[0][1] is not None and norm(b2[0][1]) == fld
+                        return False
+                    if fld and rets_ and all(from_field(r.value) for r in rets_):
+                        okk = True
+                    else:
+                        why = "%s does not hand out a counter that it advances by a positive step on every call" % g_.name
+            elif isinstance(src, ast.Call) or src is None:
+                pass
+            if isinstance(src, ast.Call) and any(e in ("uuid.uuid4", "uuid.uuid1", "builtins.id", "itertools.count") for e in t.resolve_call(src, submit).ext):
+                okk = True
+            if isinstance(key, ast.Call) and any(e in ("builtins.id",) for e in t.resolve_call(key, submit).ext):
+                okk = True
+            if okk:
+                res.ok("C09.C", {"tracking key new per submission": norm(key)})
+            else:
+                res.fail(Finding("C09.C", submit.qname, n, submit.loc(n), why + ": two accepted tasks can share one key, the second replaces the first in the pending map and flush does not wait for it"))
     # completion callbacks run on the worker (or on the submitting thread when the task already finished): the
     # executor shields them from Exception only - anything else kills the pool worker / reaches the application
     ncb = 0
